@@ -102,6 +102,13 @@ class SimFile(object):
         if not self._can_write:
             raise io.UnsupportedOperation('write')
         data = bytes(data)
+        fs = self.fs
+        k = fs.write_events
+        fs.write_events += 1
+        if fs.fail_writes and k in fs.fail_writes:
+            fs.faults_fired['enospc'] = fs.faults_fired.get('enospc', 0) + 1
+            self._ev('enospc', self._pos, len(data), 0)
+            raise OSError(errno.ENOSPC, 'injected: no space left on device (write event %d)' % k)
         buf = self._buf()
         if self._append:
             self._pos = len(buf)
@@ -199,6 +206,8 @@ class SimFS(object):
         self.record = record
         self.read_events = 0
         self.fail_reads = None
+        self.write_events = 0
+        self.fail_writes = None
         self.faults_fired = {}
         self.short_rng = random.Random(short_seed) if short_seed is not None else None
 
